@@ -1,7 +1,8 @@
 (* C03 - Conversion always tiles the whole buffer, one output character per symbol.
    Property theorems only (proofs: Proofs/ConversionProofs.v). *)
 From Coq Require Import NArith List Bool Arith Lia.
-From LC Require Import Base.Lib Model.Composition Model.Conversion Proofs.CompositionProofs Proofs.ConversionProofs Proofs.GraphPath Proofs.SimpleEngineProofs.
+From LC Require Import Base.Lib Model.Composition Model.Conversion Proofs.CompositionProofs Proofs.ConversionProofs Proofs.GraphPath Proofs.SimpleEngineProofs Model.Engine Proofs.EngineProofs.
+From Coq Require Import Permutation.
 Import ListNotations.
 Open Scope nat_scope.
 
@@ -82,6 +83,49 @@ Theorem C03_path_missing_pinned_refuted : forall p,
   path_ok (find_intervals_pinned (fun _ => []) (mkComp [SymSyl 100%N] [GBegin] [])) 0 1 p = false.
 Proof. exact no_path_pinned. Qed.
 Print Assumptions C03_path_missing_pinned_refuted.
+
+
+(* ---- the Chewing / Fuzzy engine itself (Model/Engine.v: find_k_paths, shortest_path, trim_paths, the
+   ranking), not only "every path": EVERY alternative ChewingEngine::convert returns - for every sort of
+   the candidate paths, buffers of up to 4000 symbols - is a tiling of well-formed intervals ---- *)
+Section ChewingEngine.
+Variable lookup : lookup_fn.
+Hypothesis lookup_len : forall syms p, In p (lookup syms) -> length (fst p) = length syms.
+Hypothesis lookup_nil : lookup [] = [].
+Variable spell : N -> list N.
+Variable c : composition.
+Hypothesis Wc : wf_comp c.
+Hypothesis sel_len : Forall (fun s => length (itext s) = ie s - ib s) (selections c).
+Hypothesis has_word : forall s, In (SymSyl s) (symbols c) -> lookup [SymSyl s] <> [].
+Variable sortu : list path -> list path.
+Hypothesis sortu_perm : forall l, Permutation (sortu l) l.
+
+Theorem C03_every_alternative_of_the_engine_tiles : clen c <= 4000 ->
+  exists alts, chewing_convert sortu spell lookup c = Ok alts /\ alts <> [] /\
+    forall ivs, In ivs alts -> contiguous 0 (clen c) ivs = true /\ Forall (iv_ok c) ivs.
+Proof.
+  intros Hl. unfold chewing_convert.
+  destruct (chewing_convert_spec lookup lookup_nil spell c Wc sortu sortu_perm Hl) as (alts & b & -> & Hne & Hall).
+  cbn [bind fst]. exists alts. split; [reflexivity|]. split; [exact Hne|]. intros ivs Hin.
+  destruct (Hall ivs Hin) as (Hc & Hp). split; [exact Hc|].
+  assert (Hd : symbols c = [] \/ symbols c <> []) by (destruct (symbols c); [now left | right; discriminate]).
+  destruct Hd as [Es|Es].
+  - (* empty buffer: the one alternative is the empty list *)
+    assert (Hz : clen c = 0) by (unfold clen; now rewrite Es). rewrite Hz in Hc.
+    destruct ivs as [|iv ivs]; [constructor|]. cbn [contiguous] in Hc.
+    apply andb_true_iff in Hc as [Hc Hc3]. apply andb_true_iff in Hc as [Hc1 Hc2]. apply Nat.eqb_eq in Hc1. apply Nat.ltb_lt in Hc2.
+    exfalso. clear - Hc1 Hc2 Hc3.
+    assert (G : forall l from, 0 < from -> contiguous from 0 l = false).
+    { induction l as [|x l IH]; intros from Hf; cbn [contiguous].
+      - apply Nat.eqb_neq. lia.
+      - destruct (Nat.eqb (ib x) from) eqn:E1; [|reflexivity]. destruct (Nat.ltb (ib x) (ie x)) eqn:E2; [|reflexivity]. cbn [andb].
+        apply IH. apply Nat.ltb_lt in E2. lia. }
+    rewrite G in Hc3 by lia. discriminate.
+  - destruct (Hp Es) as (p & Hp' & ->).
+    exact (proj2 (every_path_tiles lookup lookup_len lookup_nil spell c Wc sel_len has_word p Hp')).
+Qed.
+End ChewingEngine.
+Print Assumptions C03_every_alternative_of_the_engine_tiles.
 
 (* ---- SimpleEngine::convert (modelled exactly; compared for equality on every logged conversion) ---- *)
 Section SimpleEngine.
